@@ -78,7 +78,9 @@ PROPS = {
         "assumptions": ["url.ParseRequestURI / http.ParseHTTPVersion verdicts are inputs of the model (recorded from the real processors); "
                         "the model's own parseHTTPVersion is cross-checked against the recorded verdicts",
                         "the reference parser is not modelled: agreement of reqSpec/respSpec with net/http is sampled on every case",
-                        "header names ASCII (strings.ToLower / CanonicalHeaderKey are modelled bytewise)"],
+                        "header names ASCII (strings.ToLower / CanonicalHeaderKey are modelled bytewise)",
+                        "client: which responses answer a HEAD request is request context, an input of the model (Cfg.head), taken "
+                        "from the request script; the message-level theorems assume no HEAD outstanding, c07_response_without_body covers the rest"],
     },
     "C06": {
         "manifest": {
